@@ -364,7 +364,16 @@ def separate_coefficients(expr, int_arithmetic=True, fp_arithmetic=False):
         )
         return -value, has_float, remaining_components
 
-    transformed_components = list(zip(*[_process(child) for child in expr.children]))
+    def _flatten(children):
+        # All factors of a minus-prefixed product are factors of the enclosing product
+        for child in children:
+            if is_minus_prefix(child) and len(child.children) > 2:
+                yield -1
+                yield from _flatten(child.children[1:])
+            else:
+                yield child
+
+    transformed_components = list(zip(*[_process(child) for child in _flatten(expr.children)]))
     value = reduce(_op.mul, transformed_components[0], 1)
     has_float = any(transformed_components[1])
     if not int_arithmetic and not has_float:
